@@ -56,13 +56,15 @@ LEVEL_TEXT = ("Full strength on the model of the repaired backend: for every his
               "the descendant search ends (run_total) and a state is valid exactly when the reference lineage model says so "
               "(matches_spec; rollback_invalidates_descendants, rederive_revalidates, unrecorded_invalid are its readable corollaries). "
               "For the backend as it was: current_refuted_raw and current_refuted_fork_edge are closed counter-examples, "
-              "current_matches_spec_partial proves agreement on histories whose states stay ancestor-closed and whose forks are recorded. "
+              "current_matches_spec_partial proves its rollback agrees with the repaired one on every ancestor-closed state, and "
+              "sched_preserves_closed that scheduler-driven chain histories only produce such states. "
               "chain_no_stale_replay: for every sequence of chain workflows (any edits/reverts), after each execution the external system "
               "holds exactly the requested chain — no invalidated state is replayed — for both variants.")
-LEVEL_NOTE = ("READY depends on /repo carrying findings_proposed/C25-*.fix.diff (FIXED=True); with FIXED=False the model mirrors the "
-              "unrepaired backend and the two signatures are expected as known findings. Not modelled: concurrent sessions, commit "
-              "points (rollback_handle leaves its UPDATE uncommitted), handles nested in containers, class_name mismatch after "
-              "deserialisation (Handle.is_valid), CSE hits (which skip the validity check inside one execution).")
+LEVEL_NOTE = ("FIXED=True: the model compared with /repo is the backend repaired by harness/findings_proposed/C25-handles.fix.diff (both "
+              "former failing histories are corpus cases that must now pass); the unrepaired variant stays in the model (fixed=false) for "
+              "the refutation witnesses and the partial theorem. Not modelled: concurrent sessions, commit points (rollback_handle leaves its "
+              "UPDATE uncommitted), handles nested in containers, class_name mismatch after deserialisation (Handle.is_valid), CSE hits "
+              "(which skip the validity check inside one execution), ultimate-reduction hits of an enclosing task.")
 TECHNIQUE = "Lean 4 proof (DFS = descendants, refinement of the reference lineage model, chain-workflow invariant) + differential runs on the real backend and Scheduler"
 
 NAMES = ["h", "g"]
@@ -288,6 +290,7 @@ class Session:
         """oracle (reference lineage) then correspondence (Lean raw model) for the logged calls. Returns outcome string."""
         ctx, ref = self.ctx, Ref()
         answers = list(getattr(self, "answers", []))
+        # ---- oracle first, over the whole history: the real backend against the reference lineage model
         for n, (op, (rows, edges, val)) in enumerate(zip(self.ops, self.obs)):
             ref.apply(op)
             case = {"family": self.label, "history": history, "backend_calls": self.ops[:n + 1], "step": n}
@@ -297,6 +300,12 @@ class Session:
                               ("rollback_handle" if op["op"] == "rb" else "advance_handle"), case=case,
                               expected={i: s for i, (_, s) in bad.items()}, actual={i: v for i, (v, _) in bad.items()}, kind="history")
                 return "violation"
+        res = self.check_answers(answers, history)
+        if res != "ok":
+            return res
+        # ---- correspondence with the Lean raw model
+        for n, (op, (rows, edges, val)) in enumerate(zip(self.ops, self.obs)):
+            case = {"family": self.label, "history": history, "backend_calls": self.ops[:n + 1], "step": n}
             m = parse_tables(replies[n + 1])
             if isinstance(m, str):
                 ctx.mismatch("model driver answered " + m, case=case, model=m, impl="ok")
@@ -309,6 +318,10 @@ class Session:
             if mval != val:
                 ctx.mismatch("is_valid_handle differs from the model", case=case, model=mval, impl=val)
                 return "mismatch"
+        return "ok"
+
+    def check_answers(self, answers, history):
+        ctx = self.ctx
         # answers given to the scheduler while it ran (spied): each must agree with the reference at that point
         ref2, k = Ref(), 0
         for nops, idx, a in answers:
@@ -520,10 +533,10 @@ def chain_lines(hist, name="w"):
     return ["(wf %s %s)" % (hx(name), " ".join(hx(tname(d, v)) for d, v in enumerate(chain))) for chain in hist]
 
 
-def check_chain(ctx, hist, runs, replies):
-    for n, (chain, r, rep) in enumerate(zip(hist, runs, replies)):
+def chain_oracle(ctx, hist, runs):
+    """the property's own oracle on the real executions: the external system holds the requested chain"""
+    for n, (chain, r) in enumerate(zip(hist, runs)):
         case = {"family": "chain", "history": hist[:n + 1], "run": n}
-        # ---- oracle: the external system holds the requested chain
         if r["err"]:
             ctx.violation("C25-chain-workflow-raises", "scheduler.run raised " + r["err"], case=case, expected="no error", actual=r["err"],
                           kind="history")
@@ -537,7 +550,13 @@ def check_chain(ctx, hist, runs, replies):
             ctx.violation("C25-result-handle-invalid", "the handle returned by the execution is not valid", case=case, expected=True,
                           actual=r["final_valid"], kind="history")
             return "violation"
-        # ---- correspondence with the chain model
+    return "ok"
+
+
+def check_chain(ctx, hist, runs, replies):
+    """correspondence with the Lean chain model"""
+    for n, (chain, r, rep) in enumerate(zip(hist, runs, replies)):
+        case = {"family": "chain", "history": hist[:n + 1], "run": n}
         if rep.startswith("!") or rep.startswith("bad-"):
             ctx.mismatch("model driver answered " + rep, case=case, model=rep, impl="ok")
             return "mismatch"
@@ -685,8 +704,11 @@ def run(ctx):
             for k in extra:
                 ctx.count("raw_op", k)
         elif kind == "chain":
-            if res == "ok":
-                res = check_chain(ctx, hist, extra, replies[o + nl:o + nl + len(hist)])
+            if res != "violation":
+                r2 = chain_oracle(ctx, hist, extra)
+                if r2 == "ok" and res == "ok":
+                    r2 = check_chain(ctx, hist, extra, replies[o + nl:o + nl + len(hist)])
+                res = r2 if r2 != "ok" else res
             ctx.case(key=json.dumps(hist) if len(hist) >= 2 else None, sample={"family": "chain", "runs": hist,
                                                                                  "ran": [r["ran"] for r in extra]},
                      family="chain", outcome=res, executions=len(hist), depth=max(len(c) for c in hist))
@@ -714,8 +736,11 @@ def replay(ctx, case):
         lines = sess.lines() + chain_lines(hist)
         rep = ctx.model("C25", lines)
         res = sess.check(rep[:len(sess.lines())], hist)
-        if res == "ok":
-            res = check_chain(ctx, hist, runs, rep[len(sess.lines()):])
+        if res != "violation":
+            r2 = chain_oracle(ctx, hist, runs)
+            if r2 == "ok" and res == "ok":
+                r2 = check_chain(ctx, hist, runs, rep[len(sess.lines()):])
+            res = r2 if r2 != "ok" else res
         for r in runs:
             print("  run", r)
         print("replay outcome:", res)
